@@ -982,6 +982,8 @@ def r6(db, rep):
                 # std::copy(X.begin(), X.end(), buffer): whole container
                 b0, e0, d0 = facts.strip_all(args[0]), facts.strip_all(args[1]), facts.strip_all(args[2])
                 def _of(e_, nm):
+                    while e_["k"] in ("CXXConstructExpr", "MaterializeTemporaryExpr", "CXXBindTemporaryExpr", "ImplicitCastExpr") and e_.get("c"):
+                        e_ = facts.strip_all(e_["c"][0])
                     if e_["k"] == "CXXMemberCallExpr" and e_.get("cname") == nm and e_["c"][0].get("c"):
                         o_ = facts.strip_all(e_["c"][0]["c"][0])
                         return o_.get("member") if o_["k"] == "MemberExpr" and o_.get("isfield") else None
